@@ -53,6 +53,16 @@ func raceC11(tier string, r *engine.Result) {
 				}
 			}(g)
 		}
+		// ICMP errors for datagrams the socket "sent" arrive while it is being read
+		wg.Add(1)
+		go func() {
+			defer wg.Done()
+			for i := 0; i < 40; i++ {
+				quoted := ref.BuildIPv4(w.sAddr, w.pAddr, ref.ProtoUDP, uint16(5000+i), 0, 0, 64, ref.BuildUDP(c11RecvPort, 7000, []byte("12345678"), w.sAddr, w.pAddr))
+				pk := ref.BuildIPv4(w.pAddr, w.sAddr, ref.ProtoICMP, uint16(6000+i), 0, 0, 64, ref.BuildICMPv4Error(3, 3, 0, quoted[:28]))
+				port.disp.DeliverNetworkPacket(port, "", "", ipv4.ProtocolNumber, chunked(pk))
+			}
+		}()
 		stop := make(chan struct{})
 		var rg sync.WaitGroup
 		for g := 0; g < 2; g++ {
